@@ -36,10 +36,11 @@ def run(chk):
                     'difficulty and hash variants reach it and that its verdict is obeyed')
     chk.assume_note('the DOSC inflator table is an uninterpreted function of the height with values in [10^6, 2^100)')
     chk.assume_note('num::BigInt / BigRational are mathematical integers / rationals')
-    formula_kernels(chk, it)
-    validate_kernel(chk, it)
-    fold_kernels(chk, it)
-    speed_reducer(chk, it)
+    chk.guard(formula_kernels, chk, it)
+    chk.guard(validate_kernel, chk, it)
+    chk.guard(batch_speed_kernel, chk, it)
+    chk.guard(fold_kernels, chk, it)
+    chk.guard(speed_reducer, chk, it)
 
 
 def _h(it, st, v):
@@ -108,7 +109,7 @@ def formula_kernels(chk, it):
             chk.obligation('FORMULA/reward/%d' % idx, list(s.pc), o.v == spec, inputs, replay=lambda mo: replay(chk),
                            bound='reward = min(2^128-1, (work * speed * 10^6) / (1 * previous speed * previous speed * 2880)), '
                                  'work = [100 *] 2^difficulty (saturating), as an expression tree over exact * and /',
-                           arith='int')
+                           arith='int', split=(d, [bv(k, d.size()) for k in range(0, 101)]))
         if not n:
             raise Inconclusive('calculate_reward has no returning path')
         # ---- dosc_to_erg ----
@@ -312,6 +313,91 @@ def fold_kernels(chk, it):
                                replay=lambda mo: replay(chk), bound='all u128 accumulators and speeds')
     finally:
         it.overrides = [o for o in it.overrides if o not in added]
+
+
+def batch_speed_kernel(chk, it):
+    """apply_tx_batch as a whole on one transaction of any kind from an arbitrary state (the state's speed may already exceed the
+    previous header's: an earlier call at this height raised it): afterwards the state's DOSC speed is max(its speed before,
+    the speed the mint demonstrated) for an accepted DoscMint and unchanged for any other kind; a DoscMint whose validation
+    fails is rejected.  validate_and_get_doscmint_speed is an uninterpreted (verdict, speed) of the transaction here -- its own
+    kernel is validate_kernel -- whatever its argument list looks like"""
+    VOK = z3.Function('batch_validate_ok', z3.BitVecSort(256), z3.BoolSort())
+    VSP = z3.Function('batch_validate_speed', z3.BitVecSort(256), z3.BitVecSort(128))
+
+    def validate(itp, s_, a, c):
+        from mirsym.interp import mk_enum
+        txs = [x for x in (S_deref(itp, s_, v) for v in a) if isinstance(x, Agg) and x.ty == 'Transaction']
+        if len(txs) != 1:
+            raise Inconclusive('validate_and_get_doscmint_speed is not called with exactly one transaction')
+        th = B.tx_hash_term(itp, s_, txs[0])
+        return EnumV('Result', z3.If(VOK(th), bv(0, 8), bv(1, 8)), {'Ok': (VSP(th),), 'Err': (mk_enum('StateError', 'InvalidMelPoW', ()),)})
+    from mirsym.interp import mk_ok
+    from mirsym.collections import MapM as _MapM
+
+    def empty_map(itp, s_, a, c):
+        return mk_ok(Opaque('Map', _MapM()))
+
+    def accept(itp, s_, a, c):
+        return mk_ok(UNIT)
+
+    def next_state(itp, s_, a, c):
+        # create_next_state(this.clone(), ..): its own kernels are C02 / C05; it does not touch the speed (FRAME, C03 COMM-1/scalars)
+        return mk_ok(S_deref(itp, s_, a[0]) if isinstance(a[0], Ptr) else a[0])
+    gen = r'(::<.*>)?$'
+    added = [(re.compile(r'(^|::)validate_and_get_doscmint_speed' + gen), validate), (re.compile(r'(^|::)load_relevant_coins' + gen), empty_map),
+             (re.compile(r'(^|::)load_stake_info' + gen), empty_map), (re.compile(r'(^|::)check_tx_validity' + gen), accept),
+             (re.compile(r'(^|::)create_next_state' + gen), next_state)]
+    it.overrides = added + list(it.overrides)
+    try:
+        G.reset()
+        G.atomic_domains = {'single:Transaction'}
+        st = State()
+        state, sterms = B.sym_state(st.pc)
+        B.install_history_invariant(it, sterms['height'])
+        st.pc += [z3.UGE(sterms['height'], 1), z3.ULE(sterms['height'], 100_000_000)]
+        n_paths = 0
+        alts = []
+        for ntx in (1, 2):
+            s0 = st.fork()
+            txs, tts = [], []
+            for i in range(ntx):
+                tx, tt = B.sym_tx('tx%d' % i, 1, 1, 1, s0.pc)
+                txs.append(tx)
+                tts.append(tt)
+            ths = [B.tx_hash_term(it, s0, tx) for tx in txs]
+            if ntx == 2:
+                G.declare_distinct(ths[0], ths[1])
+            before = sterms['dosc_speed']
+            fn = it.by_last['apply_tx_batch_impl'][0]
+            outs = it.exec_fn(s0, fn, [Ptr(s0.alloc(state)), Ptr(s0.alloc(Agg('array', txs)))])
+            inputs = {'speed_before': before, 'height': sterms['height']}
+            mints = [tt['kind'] == S.TXKINDS['DoscMint'] for tt in tts]
+            for i, tt in enumerate(tts):
+                inputs['tx%d_kind' % i] = tt['kind']
+            want = before
+            for m_, th in zip(mints, ths):
+                want = z3.If(z3.And(m_, z3.UGT(VSP(th), want)), VSP(th), want)
+            all_valid = z3.And([z3.Implies(m_, VOK(th)) for m_, th in zip(mints, ths)])
+            for k, (s, o) in enumerate(outs):
+                if isinstance(o, Panic):
+                    continue  # panic freedom: C09
+                n_paths += 1
+                ok = M.is_variant(o.v, 'Ok')
+                rp = lambda mo: replay(chk)
+                chk.obligation('FUNC/a-batch-is-accepted-iff-its-mints-validate/%dtx/%d' % (ntx, k), list(s.pc), ok == all_valid, inputs, replay=rp,
+                               bound='validity, coin loading and state building abstracted away (their kernels: C02, C04, C05)')
+                if 'Ok' in o.v.payloads:
+                    after = o.v.payloads['Ok'][0].fields[8]
+                    chk.obligation('FUNC/state-speed-after-a-batch-is-max-of-before-and-shown/%dtx/%d' % (ntx, k), list(s.pc) + [ok], after == want,
+                                   inputs, replay=rp, bound='%d transaction(s) of any kind; the speed before is arbitrary (an earlier call at this '
+                                   'height may have raised it above the previous header\'s)' % ntx)
+                    alts.append((list(s.pc), z3.And(ok, mints[0], z3.UGT(VSP(ths[0]), before))))
+        if not n_paths:
+            raise Inconclusive('apply_tx_batch_impl has no returning path')
+        chk.cover_any('an accepted mint that raises the speed', alts)
+    finally:
+        it.overrides = [o for o in it.overrides if o not in added]
+        it.base_read_hooks.pop('history', None)
 
 
 def speed_reducer(chk, it):
